@@ -31,6 +31,7 @@ from .exceptions import LocalNamespaceLimitError
 from .exceptions import LoopIterationLimitError
 from .exceptions import UnknownFilterError
 from .exceptions import lookup_warning
+from .limits import to_str
 from .mode import Mode
 from .output import LimitedStringIO
 from .undefined import UNDEFINED
@@ -178,8 +179,9 @@ class RenderContext:
 
         if not isinstance(root, str):
             if default == UNDEFINED:
-                hint = f"{root} is undefined"
-                return self.env.undefined(str(root), hint=hint, token=token)
+                name = to_str(root)
+                hint = f"{name} is undefined"
+                return self.env.undefined(name, hint=hint, token=token)
             return default
 
         try:
@@ -225,8 +227,9 @@ class RenderContext:
 
         if not isinstance(root, str):
             if default == UNDEFINED:
-                hint = f"{root} is undefined"
-                return self.env.undefined(str(root), hint=hint, token=token)
+                name = to_str(root)
+                hint = f"{name} is undefined"
+                return self.env.undefined(name, hint=hint, token=token)
             return default
 
         try:
